@@ -1,3 +1,62 @@
-From Verif Require Import model.Dist.
-Example C01_placeholder : True. Proof. exact I. Qed.
-Print Assumptions C01_placeholder.
+(* C01 — battery power distribution conserves the requested power.
+   Statements only; every proof is `exact <lemma>` from proofs/Dist*.v.
+   Model: model/Dist.v (the code AFTER the fix commits c773a4e, ccb79d8, fcfd05e; on the unchanged tree
+   C01_sum was refuted by the corpus witnesses corpus/C01/exact_fixed_F1_F2.json).
+
+   [distribute powf gs p]   = BatteryDistributionAlgorithm.distribute_power(p, gs), powf = pow(., exponent)
+   [wf_groups gs]           = the property's data domain (per component il <= el <= 0 <= eu <= iu, capacity > 0,
+                              group minimum power <= group inclusion bound in both directions)
+   [czero p = false]        = the request is non-zero for the code (|p| > 1e-9 W)
+   [side_ok powf gs p]      = two conditions on the run, decidable by evaluation (lower_okb) and required by the
+                              generated case files on every in-domain case:
+                                (i) no excess entry is negative after the deficit covering
+                                    (math.isclose may cover a deficit that exceeds the donor's excess by <= 1e-9 relative);
+                               (ii) the left-over handed to the greedy top-up is non-negative
+                                    (request - assigned >= 0).
+                              NOT YET DERIVED from `admitted gs p` inside Coq -- hence the `_partial` names. *)
+From Coq Require Import QArith List.
+From Verif Require Import model.Dist proofs.DistFacts proofs.DistBounds proofs.DistTop proofs.DistWitness.
+Import ListNotations.
+Open Scope Q_scope.
+
+(* set-points + remainder == request, exactly, for EVERY data set (well-formed or not), every pow function *)
+Theorem C01_sum : forall powf gs p r,
+  czero p = false -> distribute powf gs p = Some r -> sumsp (res_dist r) + res_rem r == p.
+Proof. exact distribute_sum. Qed.
+
+(* the power reported as set by BatteryManager (request - remainder) is the power commanded *)
+Theorem C01_reported_is_commanded : forall powf gs p rr,
+  czero p = false -> run_request powf gs p = Some rr -> res_distributed rr == sumsp (res_dist (rr_res rr)).
+Proof. exact request_reported. Qed.
+
+(* every set-point has the request's sign or is zero *)
+Theorem C01_sign_partial : forall powf gs p r,
+  wf_groups gs -> czero p = false -> side_ok powf gs p -> distribute powf gs p = Some r ->
+  forall a, In a (res_dist r) -> (0 < p -> 0 <= snd a) /\ (p < 0 -> snd a <= 0).
+Proof. exact distribute_sign. Qed.
+
+(* the remainder has the request's sign and never exceeds it in magnitude *)
+Theorem C01_remainder_partial : forall powf gs p r,
+  wf_groups gs -> czero p = false -> side_ok powf gs p -> distribute powf gs p = Some r ->
+  (0 < p -> 0 <= res_rem r <= p) /\ (p < 0 -> p <= res_rem r <= 0).
+Proof. exact distribute_remainder. Qed.
+
+(* the side conditions can be discharged by evaluation for any concrete input *)
+Theorem C01_side_conditions_decidable : forall gs p, lower_okb gs p = true -> lower_ok gs p.
+Proof. exact lower_okb_ok. Qed.
+
+(* non-vacuity: a well-formed two-group pool, admitted requests in both directions, side conditions hold,
+   all of the request is distributed *)
+Example C01_nonvacuous :
+  wf_groups ex_gs /\ (admitted ex_gs 120 /\ admitted ex_gs (-120)) /\
+  (side_ok idf ex_gs 120 /\ side_ok idf ex_gs (-120)) /\
+  (exists r, distribute idf ex_gs 120 = Some r /\ sumsp (res_dist r) == 120 /\ res_rem r == 0) /\
+  (exists r, distribute idf ex_gs (-120) = Some r /\ sumsp (res_dist r) == -120 /\ res_rem r == 0).
+Proof. exact (conj ex_wf (conj ex_admitted (conj ex_side_ok ex_runs))). Qed.
+
+Print Assumptions C01_sum.
+Print Assumptions C01_reported_is_commanded.
+Print Assumptions C01_sign_partial.
+Print Assumptions C01_remainder_partial.
+Print Assumptions C01_side_conditions_decidable.
+Print Assumptions C01_nonvacuous.
